@@ -74,7 +74,8 @@ impl Engine for ProgEngine {
     }
     fn run_case(&self, prog: &Program, st: &mut Stats, env: &mut WorkerEnv) -> Result<(), String> {
         env.scratch.reset();
-        let ctx = Ctx::new(env.scratch.cache.clone(), env.scratch.scratch.clone(), &prog.keys, &prog.blobs);
+        // the cache directory is spelled in different (equivalent) ways from case to case
+        let ctx = Ctx::new(env.scratch.cache_alias(hash_of(prog) >> 3), env.scratch.scratch.clone(), &prog.keys, &prog.blobs);
         let mut model = Model::new();
         let addrs = basic::addr_universe(prog);
         let mut trace = Trace { prog, results: Vec::with_capacity(prog.steps.len()) };
